@@ -50,10 +50,10 @@ RowsKept(B, A) == B.rows \subseteq A.rows
 OutsideUntouched(B, A) == A.outside = B.outside
 
 (***************************************************************************)
-(* run (C06 C08): spawns = seq of <<id, ts, preexisted, emptyAtStart, exitcode>> *)
+(* run (C06 C08): spawns = set of <<id, ts, preexisted, emptyAtStart, exitcode>> *)
 (***************************************************************************)
 RunClauses(B, A, spawns, head, dirty, crashed) ==
-    LET sp == SetOf(spawns)
+    LET sp == spawns
         ok == {s \in sp : s[5] = 0}
     IN  V(\A s \in sp : s[2] > MaxTs(B), "IdAboveRecorded")
    \cup V(\A s \in sp : Key(s) \notin DirKeys(B) /\ s[3] = 0, "DirFresh")
@@ -78,7 +78,7 @@ GcClauses(B, A, exit, crashed) ==
 
 GcDryClauses(B, A, exit, listed) ==
         V(A = B, "DryRunDeletesNothing")
-   \cup V(exit # 0 \/ SetOf(listed) = {Key(v) : v \in Garbage(B)}, "DryRunListsExactlyGarbage")
+   \cup V(exit # 0 \/ listed = {Key(v) : v \in Garbage(B)}, "DryRunListsExactlyGarbage")
 
 (***************************************************************************)
 (* archive (C11): sel = [all |-> BOOLEAN, ids |-> seq, latest |-> BOOLEAN];*)
@@ -100,20 +100,22 @@ Selected(S, sel) ==
 
 ArchiveClauses(B, A, exit, sel, arows, members) ==
         V(A = B, "ArchiveReadOnly")
-   \cup V(exit # 0 \/ SetOf(arows) = Selected(B, sel), "ArchiveSelectsExactly")
-   \cup V(exit # 0 \/ SetOf(members) = {Key(r) : r \in Selected(B, sel)}, "ArchiveMembersExact")
+   \cup V(exit # 0 \/ arows = Selected(B, sel), "ArchiveSelectsExactly")
+   \cup V(exit # 0 \/ members = {Key(r) : r \in Selected(B, sel)}, "ArchiveMembersExact")
    \cup V(exit = 0 \/ Selected(B, sel) = {} \/ sel.expectFail, "ArchiveSucceeds")
 
 (***************************************************************************)
 (* restore (C11 C12): arch = [rows, members (seq of <<id,ts,digest>>), defect] *)
 (***************************************************************************)
 RestoreClauses(B, A, exit, crashed, arch) ==
-    LET ar == SetOf(arch.rows)
-        am == SetOf(arch.members)
+    LET ar == arch.rows
+        am == arch.members
         ok == exit = 0 /\ ~crashed
         cannot == arch.defect # "none" \/ (RowKeys(B) \cap {Key(r) : r \in ar} # {})
                   \/ (DirKeys(B) \cap {Key(r) : r \in ar} # {})
-    IN  V(ok \/ A.rows = B.rows, "FailedRestoreKeepsIndex")
+        (* killed after the commit point: all-or-nothing still holds when everything is there *)
+        allThere == A.rows = B.rows \cup ar /\ \A r \in ar : \E v \in A.vdirs : Key(v) = Key(r)
+    IN  V(ok \/ A.rows = B.rows \/ (crashed /\ allThere), "FailedRestoreKeepsIndex")
    \cup V(RecordedImmutable(B, A), "RecordedImmutable")
    \cup V(~ok \/ (ar \subseteq A.rows /\ \A r \in ar : \E v \in A.vdirs : Key(v) = Key(r)), "SuccessMeansAll")
    \cup V(~ok \/ A.rows = B.rows \cup ar, "RestoreAddsExactlyArchive")
